@@ -465,6 +465,11 @@ func (c *Client) sendAllocateRequest(protocol proto.Protocol) ( //nolint:cyclop
 	if err := lifetime.GetFrom(res); err != nil {
 		return relayed, lifetime, nonce, reservationToken, err
 	}
+	// An allocation that lives for zero seconds is none; its refresh timer (lifetime/2) would
+	// fire without pause and flood the server with Refresh requests.
+	if lifetime.Duration <= 0 {
+		return relayed, lifetime, nonce, reservationToken, errZeroAllocationLifetime
+	}
 
 	// Getting reservation-token from response
 	if c.evenPort {
